@@ -3,8 +3,8 @@
 EXTENDS Integers, Sequences, TLC, Json
 VARIABLE c
 Res == {[r |-> "ident", cap |-> 512], [r |-> "number", cap |-> 512], [r |-> "string", cap |-> 512],
-        [r |-> "ticks", cap |-> 4], [r |-> "macro_name", cap |-> 512], [r |-> "macro_body", cap |-> 1024],
-        [r |-> "macro_params", cap |-> 1024], [r |-> "macro_arg", cap |-> 1024], [r |-> "macro_args_total", cap |-> 4096],
+        [r |-> "ticks", cap |-> 4], [r |-> "ident_dots", cap |-> 512], [r |-> "ident_slashes", cap |-> 512], [r |-> "macro_name", cap |-> 512], [r |-> "macro_body", cap |-> 1024],
+        [r |-> "macro_params", cap |-> 1024], [r |-> "macro_arg", cap |-> 1024], [r |-> "macro_arg_escapes", cap |-> 512], [r |-> "macro_args_total", cap |-> 4096],
         [r |-> "equ_text", cap |-> 512], [r |-> "define_text", cap |-> 1024], [r |-> "include_name", cap |-> 512],
         [r |-> "include_path", cap |-> 4096], [r |-> "include_paths_total", cap |-> 4096], [r |-> "operands", cap |-> 16],
         [r |-> "nest_macro", cap |-> 128], [r |-> "nest_if", cap |-> 128], [r |-> "nest_include", cap |-> 128],
